@@ -60,6 +60,11 @@ def _quiet_owner(group, evs, ev):
             unsub_written = any(x.get("ev") == "WireOut" and x.get("k") == "unsub" and x.get("sub") == s for x in evs)
             if not closed_by_server and not unsub_written:
                 return ("C05", "C18"), "unsubscribe-never-written"
+    # a subscribe whose caller gave up before the answer: the subscription the server accepted must still be cancelled
+    first0, ops0 = _ids_by_op(group, evs)
+    for e in evs:
+        if e.get("ev") == "FeAbandon" and ops0.get(e.get("h"), ("", 0))[0] == "sub":
+            return ("C18", "C05"), "abandoned-subscribe-left-behind"
     # a response that was consumed while its call never completed
     first, ops = _ids_by_op(group, evs)
     done = {e["h"] for e in evs if e.get("ev") == "FeDone"}
@@ -198,7 +203,9 @@ def run_client(pid, tier, rep, design_cfgs, asis, groups, nscen):
     rep.cov["scenarios_accepted"] = accepted
     rep.cov["scenarios_driven_by_tlc_generated_scripts"] = nscripts
     rep.cov["scenarios_rejected_for_other_property"] = foreign
-    rep.assumptions += ["the real client runs on a current_thread tokio runtime over an in-memory transport; schedules are varied by seeded yields, "
+    rep.assumptions += ["quiescence probe: after 120 scheduler turns on the current_thread runtime with the in-memory transport (no timers) every task "
+                        "of the client is parked; at `Quiet` the trace spec requires that the model has no enabled client step left",
+                        "the real client runs on a current_thread tokio runtime over an in-memory transport; schedules are varied by seeded yields, "
                         "not enumerated", "TLC explores every interleaving of the MODEL for the bounded configs; the code is checked on the recorded executions"]
 
 
